@@ -109,7 +109,7 @@ class Randint:
         np.random.randint = self._real
 
 
-NULL = {'rows': [], 'pats': [], 'ridx': [], 'pidx': [], 'pinv': [], 'meas': 0, 'pcat': 0, 'vec': []}
+NULL = {'rows': [], 'pats': [], 'ridx': [], 'pidx': [], 'pinv': [], 'meas': 0, 'pcat': 0, 'pdem': 0, 'vec': []}
 
 
 class ProjectionError(Exception):
@@ -166,10 +166,11 @@ def project(ob, *, check=True):
         raise ProjectionError('meas', f'measure {ob.dissimilarity_measure!r}')
     return {'rows': rows, 'pats': pats, 'ridx': ridx, 'pidx': pidx, 'pinv': pinv,
             'meas': 1 if ob.dissimilarity_measure == 'tok' else 0,
-            'pcat': 1 if 'cat' in ob.pattern_descriptors else 0, 'vec': vec}
+            'pcat': 1 if 'cat' in ob.pattern_descriptors else 0,
+            'pdem': 1 if 'p_inv' in ob.rdm_descriptors else 0, 'vec': vec}
 
 
-FIELDS = ('rows', 'pats', 'ridx', 'pidx', 'pinv', 'meas', 'pcat', 'vec')
+FIELDS = ('rows', 'pats', 'ridx', 'pidx', 'pinv', 'meas', 'pcat', 'pdem', 'vec')
 
 
 def norm_abs(a):
@@ -485,6 +486,8 @@ def random_trace(rng, const, flavour, length, ops, scratch=None):
                 continue
             if op in ('append', 'concat') and b['meas'] != a['meas']:
                 continue
+            if op == 'append' and a['pdem'] == 1 and b['pdem'] == 0:
+                continue
             if op == 'append' and (o2 == o or b['pats'] != a['pats']):
                 continue
             nodup = len(set(a['pats'])) == npat and len(set(b['pats'])) == len(b['pats'])
@@ -494,6 +497,9 @@ def random_trace(rng, const, flavour, length, ops, scratch=None):
                 continue
         elif op == 'inverse_permute':
             if sorted(a['pinv']) != list(range(1, npat + 1)):
+                continue
+        elif op == 'to_df':
+            if a['pdem']:
                 continue
         elif op == 'drop':
             if len(heap) < 2:
